@@ -32,6 +32,9 @@ def make_isa(cfg):
     # generated only as statement kinds 'nib' / 'macro' (numeric operand 0..254), modelled by their byte expansion
     opsets['nimm8'] = {'operand_values': {'v': {'type': 'numeric', 'argument': {'size': 8, 'byte_align': False}}}}
     instrs['ldn'] = {'bytecode': {'value': 0xA, 'size': 4}, 'operands': {'count': 1, 'operand_sets': {'list': ['nimm8']}}}
+    # a one-byte instruction with a 4-bit immediate (a field whose width is no multiple of 8); used by fault injection only
+    opsets['nimm4'] = {'operand_values': {'v': {'type': 'numeric', 'argument': {'size': 4, 'byte_align': False}}}}
+    instrs['ld4'] = {'bytecode': {'value': 0xB, 'size': 4}, 'operands': {'count': 1, 'operand_sets': {'list': ['nimm4']}}}
     macros = {'ldn2': [{'operands': {'count': 1, 'operand_sets': {'list': ['nimm8']}},
                         'instructions': ['ldn @ARG(0)', 'ldn @ARG(0) + 1']}]}
     isa = {'description': 'layout', 'general': general, 'operand_sets': opsets, 'instructions': instrs, 'macros': macros}
